@@ -1073,3 +1073,83 @@ def gen_macro_scenario(rng, prof=None, tier='quick'):
     stmts.append(['data', 2, [('lab', 'lbl1'), ('lab', 'lbl2')]])
     return {'cfg': cfg, 'isa': isa, 'isa_yaml': isa_yaml(isa, cfg), 'files': [{'name': 'main.asm', 'dir': 'src', 'stmts': stmts}],
             'include_dirs': [], 'extra_files': [], 'opts': {'start': cfg['origin'], 'end': None, 'fill': 0}}
+
+
+# ------------------------------------------------------------------------------------------------ constraint boundaries (C12)
+def gen_constraint_scenario(rng, prof=None, tier='quick'):
+    """operand value constraints at configurations the generic generator seldom reaches: sliced addresses whose slice is
+    narrower than half the address width (every bit above the slice must equal the instruction's own, not only the next
+    few), in 16 and 24 bit address spaces and with slice widths that are not byte multiples; relative offsets for which
+    only one of min / max is configured (that one bound is still enforced), measured from the instruction or its end.
+    Each statement stands at an address of its own (an origin in front of it); targets are written as numbers on, next to
+    and far beyond every boundary.  At most one statement of a program is one the model may reject."""
+    from .sysgen import num
+    e = rng.choice(['big', 'little'])
+    bits = rng.choice([16, 16, 24])
+    ssz = rng.choice([4, 5, 6, 8, 8]) if bits == 16 else rng.choice([8, 8, 12, 4, 6])
+    base = rng.choice([0x1230, 0x0450, 0x2300, 0x5a10]) if bits == 16 else rng.choice([0x010010, 0x123440, 0x020100])
+    osz = 8 if ssz % 8 == 0 else 4
+    from_end = rng.random() < 0.5
+    mx, mn = rng.choice([20, 100, 0]), rng.choice([-20, -100, 0])
+
+    def sets_parser(names):
+        return {'count': len(names), 'specific': None, 'sets': {'list': list(names), 'rev_arg': False, 'rev_code': False, 'disallowed': []}}
+
+    def variant(opc, size, parser):
+        return {'opcode': (opc, size), 'endian': None, 'suffix': None, 'parser': parser}
+
+    def rel(i, lo, hi):
+        return {'id': f'rl{i}', 'kind': 'relative_address', 'code': None, 'pos': 'suffix', 'arg': {'size': 8, 'align': True, 'endian': None},
+                'curly': False, 'min': lo, 'max': hi, 'from_end': from_end}
+    isa = {'endian': e, 'zones': [], 'regs': list(REGS), 'instrs': {}, 'macros': {}, 'n': 10, 'sets': {
+        'sla': [{'id': 'sa1', 'kind': 'address', 'code': None, 'pos': 'suffix', 'arg': {'size': ssz, 'align': ssz % 8 == 0, 'endian': None},
+                 'zone': None, 'slice': True, 'msb': True}],
+        'relmax': [rel(1, None, mx)], 'relmin': [rel(2, mn, None)], 'relboth': [rel(3, mn, mx)]}}
+    isa['instrs']['jps'] = [variant(0xC if osz == 4 else 0xC4, osz, sets_parser(['sla']))]
+    isa['instrs']['skp'] = [variant(0xE0, 8, sets_parser(['relmax']))]
+    isa['instrs']['lop'] = [variant(0xE1, 8, sets_parser(['relmin']))]
+    isa['instrs']['brb'] = [variant(0xE2, 8, sets_parser(['relboth']))]
+    isa['instrs']['tst'] = [variant(0, 8, None)]
+    cfg = dict(addr_bits=bits, endian=e, origin=base, page=1, terminator=0, embedded=False, zones=[], consts=[], data=[], syms=[], cli=[])
+    top = (1 << bits) - 1
+    mask = (1 << ssz) - 1
+    stmts = []
+    risky_left = 1 if rng.random() < 0.5 else 0
+    at = base
+    for i in range(rng.randint(2, 6)):
+        if i > 0:
+            at += rng.choice([0x10, 0x24, 0x31, 1 << ssz])
+            stmts.append(['org', num(at), None])
+        k = rng.choice(['jps', 'jps', 'skp', 'lop', 'brb', 'tst'])
+        if k == 'jps':
+            good = [at, (at & ~mask) | rng.randrange(1 << ssz), at & ~mask, at | mask]
+            bad = [at ^ (1 << ssz), at ^ (1 << (bits - 1))]
+            if 2 * ssz < bits:
+                bad += [at ^ (1 << (2 * ssz)), at ^ (1 << (2 * ssz)), at ^ (3 << (2 * ssz)) & top]
+            v = rng.choice(good + (bad if risky_left else []))
+            risky_left = 0 if v in bad else risky_left
+            stmts.append(['asm', 'jps', [[f'${v:x}', [t_num(v)]]]])
+        elif k in ('skp', 'lop', 'brb'):
+            hi = mx if k in ('skp', 'brb') else None
+            lo = mn if k in ('lop', 'brb') else None
+            good = [0, 1, -1]
+            bad = []
+            if hi is not None:
+                good += [hi, hi - 1]
+                bad += [hi + 1, 127] if hi < 127 else []
+            else:
+                good += [100, 127, 21]
+            if lo is not None:
+                good += [lo, lo + 1]
+                bad += [lo - 1, -128] if lo > -128 else []
+            else:
+                good += [-100, -128, -21]
+            good = [g for g in good if (hi is None or g <= hi) and (lo is None or g >= lo)]
+            off = rng.choice(good + (bad if risky_left else []))
+            risky_left = 0 if off in bad else risky_left
+            v = at + off + (1 if from_end else 0)
+            stmts.append(['asm', k, [[f'${v:x}', [t_num(v)]]]])
+        else:
+            stmts.append(['asm', 'tst', []])
+    return {'cfg': cfg, 'isa': isa, 'isa_yaml': isa_yaml(isa, cfg), 'files': [{'name': 'main.asm', 'dir': 'src', 'stmts': stmts}],
+            'include_dirs': [], 'extra_files': [], 'opts': {'start': base, 'end': None, 'fill': 0}}
